@@ -304,6 +304,8 @@ def _vm_crosscheck_chunk(lines, outputs, spec, tag):
     except OSError:
         pass
     m = re.search(r"=\s*\[(.*?)\]\s*:\s*list N", out, re.S)
+    if not m and rc in (124, 137, -999) and "Error" not in out:
+        return "timeout"            # inconclusive: the caller splits the chunk
     if not m or "Error" in out:
         log("vm_compute cross-check chunk failed (rc %s):\n%s" % (rc, out[-2000:]))
         return None
@@ -313,6 +315,9 @@ def _vm_crosscheck_chunk(lines, outputs, spec, tag):
     if not body:
         return []
     return [int(x.strip().replace("%N", "")) for x in body.split(";")]
+
+
+VM_TIMEOUTS = []     # cases whose vm_compute evaluation did not finish in time (this run)
 
 
 def vm_crosscheck(lines, outputs, spec=False, tag="x"):
@@ -335,15 +340,31 @@ def vm_crosscheck(lines, outputs, spec=False, tag="x"):
             start, chunk, size = i + 1, [], 0
     if chunk:
         chunks.append((start, chunk))
-    for k, (off, ch) in enumerate(chunks):
+    def run(off, ch, tagk):
+        """bad indices of the chunk, None when coqc failed; a chunk that runs out of time is halved, a single
+        case that does is left out of the cross-check and counted in VM_TIMEOUTS"""
         r = None
         for attempt in range(2):
-            r = _vm_crosscheck_chunk([a for a, _ in ch], [b for _, b in ch], spec, "%s_%d" % (tag, k))
+            r = _vm_crosscheck_chunk([a for a, _ in ch], [b for _, b in ch], spec, tagk)
             if r is not None:
                 break
         if r is None:
             return None
-        bad += [off + j for j in r]
+        if r == "timeout":
+            if len(ch) == 1:
+                VM_TIMEOUTS.append(ch[0][0][:200])
+                return []
+            mid = len(ch) // 2
+            a = run(off, ch[:mid], tagk + "a")
+            b = run(off + mid, ch[mid:], tagk + "b")
+            return None if a is None or b is None else a + b
+        return [off + j for j in r]
+
+    for k, (off, ch) in enumerate(chunks):
+        r = run(off, ch, "%s_%d" % (tag, k))
+        if r is None:
+            return None
+        bad += r
     return bad
 
 
@@ -756,6 +777,12 @@ def run_property(P, tier, seed):
                 vm_bad = None
                 break
             vm_bad.extend(c[j] for j in r)
+    if VM_TIMEOUTS:
+        notes.append("vm_compute cross-check: %d sampled case(s) did not finish within the time limit of a single "
+                     "coqc run and were left out of the cross-check (their extracted-model answers are still "
+                     "compared with the implementation and the specification)" % len(VM_TIMEOUTS))
+    if vm_bad is not None and idx and len(VM_TIMEOUTS) >= len(idx):
+        vm_bad = None               # nothing at all could be cross-checked: not a result
     if vm_bad is None:
         notes.append("vm_compute cross-check did not run")
         if not broken_obligation:
@@ -816,7 +843,8 @@ def run_property(P, tier, seed):
         "rule": P.get("rule", ""),
         "samples": samples,
         "corpus_cases": len(corpus),
-        "vm_compute_crosschecked": len(idx) if vm_bad is not None else 0,
+        "vm_compute_crosschecked": (len(idx) - len(VM_TIMEOUTS)) if vm_bad is not None else 0,
+        "vm_compute_timeouts": len(VM_TIMEOUTS),
         "impl_modes": [m["name"] for m in modes],
         "known_findings_hit": sorted(known_hits.keys()),
         "exhaustive": bool(P.get("exhaustive", False)),
